@@ -534,3 +534,46 @@ B('d7_b_debug_not_found_resets_message', ['C09'], 'R09.a', (E, _CNF_SUPER, _CNF_
 B('d7_b_method_not_allowed_detail_after_super', ['C09'], 'R09.a',
   (E, "            self.detail = '%s Allowed methods: %r' % (self.detail,\n                                                      method_list)\n        super(MethodNotAllowed, self).__init__(*args, **kwargs)\n",
       "        super(MethodNotAllowed, self).__init__(*args, **kwargs)\n        if self.allowed_methods:\n            self.detail = 'Allowed methods: %r' % (method_list,)\n"))
+
+# ------------------------------------------------------------------ eighth pass: the lookup of adapt() with a default no format can be
+# (a private marker object, a constant outside the table); a body encoded in place (``if not isinstance(t, bytes): t = t.encode(..)``)
+_ENC_BODY = "        if isinstance(text, bytes):\n            return text\n        return text.encode(self.charset, 'backslashreplace')\n"
+_ENC_IN_PLACE = "        if not isinstance(text, bytes):\n            text = text.encode(self.charset, 'backslashreplace')\n        return text\n"
+_MARKER = _AFTER_DEFAULT_MIME + "_NO_FORMAT = object()\n"
+_MARKER_LOOKUP = "        fmt_name = MIME_SUPPORT_MAP.get(mimetype, _NO_FORMAT)\n        if fmt_name is _NO_FORMAT:\n            fmt_name, mimetype = 'text', 'text/plain'\n"
+_ADAPT_BODY = "        self.data = self._encode(_method())\n"
+_INIT_BODY = "        body = self._encode(self.to_text())\n"
+T('d8_t_adapt_lookup_with_marker_default', ['C09', 'C08'], (E, _AFTER_DEFAULT_MIME, _MARKER), (E, _ADAPT_LOOKUP, _MARKER_LOOKUP))
+T('d8_t_adapt_marker_told_by_equality_found_first', ['C09'], (E, _AFTER_DEFAULT_MIME, _MARKER),
+  (E, _ADAPT_LOOKUP, "        fmt_name = MIME_SUPPORT_MAP.get(mimetype, _NO_FORMAT)\n        if fmt_name != _NO_FORMAT:\n            pass\n        else:\n"
+                     "            fmt_name, mimetype = 'text', 'text/plain'\n"))
+T('d8_t_adapt_lookup_with_empty_default', ['C09'],
+  (E, _ADAPT_LOOKUP, "        fmt_name = MIME_SUPPORT_MAP.get(mimetype, '')\n        if not fmt_name:\n            fmt_name, mimetype = 'text', 'text/plain'\n"))
+T('d8_t_adapt_lookup_with_empty_default_compared', ['C09'],
+  (E, _ADAPT_LOOKUP, "        fmt_name = MIME_SUPPORT_MAP.get(mimetype, '')\n        if fmt_name == '':\n            fmt_name, mimetype = 'text', 'text/plain'\n"))
+T('d8_t_body_encoded_in_place', ['C09', 'C08'], (E, _ENC_BODY, _ENC_IN_PLACE))
+T('d8_t_body_encoded_in_place_bytes_arm_idle', ['C09'],
+  (E, _ENC_BODY, "        if isinstance(text, bytes):\n            pass\n        else:\n            text = text.encode(self.charset, 'backslashreplace')\n        return text\n"))
+T('d8_t_marker_default_and_body_encoded_in_place', ['C09'], (E, _AFTER_DEFAULT_MIME, _MARKER), (E, _ADAPT_LOOKUP, _MARKER_LOOKUP), (E, _ENC_BODY, _ENC_IN_PLACE))
+B('d8_b_marker_test_inverted', ['C09'], 'R09.b', (E, _AFTER_DEFAULT_MIME, _MARKER),
+  (E, _ADAPT_LOOKUP, _MARKER_LOOKUP.replace("fmt_name is _NO_FORMAT", "fmt_name is not _NO_FORMAT")))
+B('d8_b_marker_fallback_keeps_mimetype', ['C09'], 'R09.b', (E, _AFTER_DEFAULT_MIME, _MARKER),
+  (E, _ADAPT_LOOKUP, _MARKER_LOOKUP.replace("fmt_name, mimetype = 'text', 'text/plain'", "fmt_name = 'text'")))
+B('d8_b_marker_fallback_mismatched_pair', ['C09'], 'R09.b', (E, _AFTER_DEFAULT_MIME, _MARKER),
+  (E, _ADAPT_LOOKUP, _MARKER_LOOKUP.replace("'text', 'text/plain'", "'text', 'text/html'")))
+B('d8_b_marker_is_a_format_of_the_table', ['C09'], 'R09.b', (E, _AFTER_DEFAULT_MIME, _AFTER_DEFAULT_MIME + "_NO_FORMAT = 'text'\n"),
+  (E, _ADAPT_LOOKUP, _MARKER_LOOKUP.replace("fmt_name is _NO_FORMAT", "fmt_name == _NO_FORMAT")))
+B('d8_b_other_marker_tested', ['C09'], 'R09.b', (E, _AFTER_DEFAULT_MIME, _MARKER + "_NO_TYPE = object()\n"),
+  (E, _ADAPT_LOOKUP, _MARKER_LOOKUP.replace("fmt_name is _NO_FORMAT", "fmt_name is _NO_TYPE")))
+B('d8_b_marker_rebound_by_a_function', ['C09'], 'R09.b',
+  (E, _AFTER_DEFAULT_MIME, _MARKER + "\n\ndef _reset_marker(value):\n    global _NO_FORMAT\n    _NO_FORMAT = value\n\n"), (E, _ADAPT_LOOKUP, _MARKER_LOOKUP))
+B('d8_b_empty_default_tested_for_none', ['C09'], 'R09.b',
+  (E, _ADAPT_LOOKUP, "        fmt_name = MIME_SUPPORT_MAP.get(mimetype, '')\n        if fmt_name is None:\n            fmt_name, mimetype = 'text', 'text/plain'\n"))
+B('d8_b_format_default_tested_by_truth', ['C09'], 'R09.b',
+  (E, _ADAPT_LOOKUP, "        fmt_name = MIME_SUPPORT_MAP.get(mimetype, 'text')\n        if not fmt_name:\n            fmt_name, mimetype = 'text', 'text/plain'\n"))
+B('d8_b_in_place_adapt_body_is_plain_text', ['C09'], 'R09.b', (E, _ENC_BODY, _ENC_IN_PLACE), (E, _ADAPT_BODY, "        self.data = self._encode(self.to_text())\n"))
+B('d8_b_in_place_default_body_is_markup', ['C09'], 'R09.a', (E, _ENC_BODY, _ENC_IN_PLACE), (E, _INIT_BODY, "        body = self._encode(self.to_html())\n"))
+B('d8_b_in_place_encodes_another_text', ['C09'], 'R09.b',
+  (E, _ENC_BODY, "        if not isinstance(text, bytes):\n            text = self.message.encode(self.charset, 'backslashreplace')\n        return text\n"))
+B('d8_b_in_place_body_rebound_after_encoding', ['C09'], 'R09.b',
+  (E, _ENC_BODY, _ENC_IN_PLACE), (E, _ADAPT_BODY, "        body = self._encode(_method())\n        body = self._encode(self.to_text())\n        self.data = body\n"))
